@@ -1330,11 +1330,6 @@ Definition is_gen_line (c : subcmd) (line : string) : bool :=
   | Some b => Nat.ltb (b + 11) (String.length rest)
   end.
 
-(* filepath.Join(dir, name) for dir = "." or "./x" or "x" *)
-Definition join_dir (dir name : string) : string :=
-  if dir =? "." then name
-  else (if String.prefix "./" dir then sdrop 2 dir else dir) ++ "/" ++ name.
-
 (* insertion sort by byte order: filepath.Glob returns the names sorted *)
 Fixpoint insert_sorted (x : string) (l : list string) : list string :=
   match l with
@@ -1349,7 +1344,7 @@ Fixpoint clean_loop (io : nat -> bool) (fl : flags) (genfile : string) (names : 
   match names with
   | [] => (Ok tt, w)
   | n :: r =>
-      if join_dir (fl_dir fl) n =? genfile then clean_loop io fl genfile r w else
+      if n =? genfile then clean_loop io fl genfile r w else      (* filepath.Base(file) == genfile *)
       match assoc n (w_dir w) with
       | Some (EFile line) =>
           if is_aio_line line then clean_loop io fl genfile r w
